@@ -1,5 +1,5 @@
 #!/venv/bin/python
-"""refcheck.py [--tests] <dir with patch.diff> ... : a behaviour-preserving refactoring must leave every check silent (exit 0).
+"""refcheck.py [--tests] [--only=C05,C17] <dir with patch.diff> ... : a behaviour-preserving refactoring must leave every check silent (exit 0).
 
 Each patch is applied in its own scratch worktree of /repo (removed afterwards); with --tests the 125 tests are run first.
 """
@@ -12,6 +12,9 @@ from concurrent.futures import ThreadPoolExecutor
 
 VERIF = os.path.dirname(os.path.dirname(os.path.abspath(__file__)))
 ALL = ["C01", "C02", "C04", "C05", "C06", "C07", "C08", "C09", "C10", "C11", "C12", "C13", "C14", "C15", "C16", "C17", "C18", "C19"]
+
+
+ONLY = [p for a in sys.argv[1:] if a.startswith("--only=") for p in a.split("=", 1)[1].split(",") if p in ALL]
 
 
 def sh(cmd, cwd=None, env=None):
@@ -34,7 +37,7 @@ def one(d, tests):
             rc, o = sh("/venv/bin/python -m pytest -q -x -p no:cacheprovider --timeout=900", cwd=wt, env=env)
             out["tests_rc"] = rc
         res = {}
-        for pid in ALL:
+        for pid in ONLY or ALL:
             rc, o = sh(f"{VERIF}/vcheck {pid} --no-evidence --root {wt}", cwd=VERIF)
             if rc != 0:
                 res[pid] = {"exit": rc, "lines": [l[:400] for l in o.splitlines() if l.startswith("  src/") or l.startswith("ANALYSIS")][:3]}
